@@ -127,10 +127,10 @@ class Client:
         return self.raw_frame(0x10, login_hash(self.pw if password is None else password, ((self.seed if seed is None else seed) + 1) & 0xffffffff))
 
 
-def ip_packet(dst_ip, payload=b"", src_ip=0x0a000001):
+def ip_packet(dst_ip, payload=b"", src_ip=0x0a000001, ident=0):
     """4-byte tun header + minimal IPv4 header + payload (checksum not needed by iodine)"""
     total = 20 + len(payload)
-    hdr = struct.pack(">BBHHHBBHII", 0x45, 0, total & 0xffff, 0, 0, 64, 17, 0, src_ip, dst_ip)
+    hdr = struct.pack(">BBHHHBBHII", 0x45, 0, total & 0xffff, ident & 0xffff, 0, 64, 17, 0, src_ip, dst_ip)
     return b"\x00\x00\x08\x00" + hdr + payload
 
 
